@@ -99,6 +99,12 @@ func (e *evictorProxy) Evict(ctx context.Context, pod *corev1.Pod, opts framewor
 	if len(e.handle.evictPlugins) == 0 {
 		panic("No Evictor plugin is registered in the frameworkImpl.")
 	}
+	if e.evictionLimiter != nil {
+		// AllowEvict, the eviction itself and Done form one critical section: otherwise concurrent evictors can all
+		// pass AllowEvict before any of them reports Done, and together exceed the configured limits.
+		e.handle.evictLock.Lock()
+		defer e.handle.evictLock.Unlock()
+	}
 	if !e.AllowEvict(pod) {
 		return false
 	}
